@@ -112,8 +112,21 @@ def rules(cs, g):
     n1, n2 = cs.pick(['a', 'b', 'x1']), cs.pick(['c', 'd', '_y'])
     t = '%s%s, %s%s' % (op, n1, n2, wrong)
     out.append(('R03_mismatched_pair', 'expr_to_eol', t, (len(t) - 1, len(t)), lambda e: unrec(e, 'Rpar') or unrec(e, 'Rsqb') or unrec(e, 'Rbrace') or lex(e, 'NestingError', 'Eof'), False))
-    out.append(('R04_dedent_to_unknown_level', 'stmt', 'if %s:\n        %s\n    %s\n' % (a, b, c), None, lambda e: lex(e, 'IndentationError'), False))
-    out.append(('R05_tab_space_ambiguity', 'stmt', 'if %s:\n        %s\n\t%s\n' % (a, b, c), None, lambda e: e.get('tab_err') is True, False))
+    # dedent to a column that is no enclosing level: random widths, one or two open levels, and (half of the time) a form feed
+    # inside the leading blanks of the offending line, which restarts the column count there
+    w1 = 1 + cs.choice(8)
+    w2 = w1 + 1 + cs.choice(8)
+    two = cs.bool()
+    cands = [k for k in range(1, (w2 if two else w1)) if k != w1]
+    if cands:
+        col = cs.pick(cands)
+        lead = ' ' * col if cs.bool() else ' ' * cs.choice(7) + '\x0c' + ' ' * col
+        t = 'if %s:\n%s%s\n' % (a, ' ' * w1, ('if %s:\n%s%s' % (b, ' ' * w2, c)) if two else b) + lead + cs.pick(['d', 'pass', 'x = 1']) + '\n'
+    else:
+        t = 'if %s:\n        %s\n    %s\n' % (a, b, c)
+    out.append(('R04_dedent_to_unknown_level', 'stmt', t, None, lambda e: lex(e, 'IndentationError'), False))
+    t = cs.pick(['if %s:\n        %s\n\t%s\n', 'if %s:\n\t%s\n        %s\n', 'if %s:\n\t        %s\n                %s\n', 'while %s:\n        %s\n\t%s\n']) % (a, b, c)
+    out.append(('R05_tab_space_ambiguity', 'stmt', t, None, lambda e: e.get('tab_err') is True, False))
     out.append(('R06_tab_after_space', 'stmt', 'if %s:\n  \t%s\n' % (a, b), None, lambda e: lex(e, 'TabsAfterSpaces'), 'nogate'))
     bad = cs.pick(['$', '?', '`', '!', '\x00', '\x7f', '€', '§', '\x1b', '\xa0', '\u2003', '\u200b']) if cs.bool(100) else gen_no_token_char(cs)
     t = '%s %s %s' % (a, bad, b)
@@ -136,12 +149,44 @@ def rules(cs, g):
               ("f'{%s!rr}'" % n(), ('InvalidConversionFlag', 'ExpectedRbrace', 'UnclosedLbrace')), ("f'{%s:{}}'" % n(), ('EmptyExpression',)), ("f'{%s=!}'" % n(), ('InvalidConversionFlag',))]
     ftxt, fk = cs.pick(fcases)
     out.append(('R12_malformed_fstring', 'expr', ftxt, whole(ftxt), lambda e, fk=fk: fs(e, *fk), False))
-    t = cs.pick(["'a' b'b'", "b'a' 'b'", "f'{x}' b'b'", "b'a' f'{x}'", "'a' 'c' rb'b'", "u'a' B'b'"])
+    # 2-4 adjacent literals, at least one bytes and one text literal, every prefix spelling and quote style, any order
+    BP = ['b', 'B', 'rb', 'Rb', 'bR', 'BR', 'br', 'rB']
+    TP = ['', 'u', 'U', 'r', 'R', 'f', 'F', 'rf', 'fr', 'Rf', 'fR', 'RF', 'FR']
+
+    def lit(pfx):
+        q = cs.pick(["'", '"', "'''", '"""'])
+        body = cs.pick(['', 'a', 'ab c', '{x}' if 'f' in pfx.lower() else 'x', '0'])
+        return pfx + q + body + q
+    kinds = [True, False] + [cs.bool() for _ in range(cs.choice(3))]
+    k0 = cs.choice(len(kinds))
+    kinds = kinds[k0:] + kinds[:k0]
+    t = ' '.join(lit(cs.pick(BP) if isb else cs.pick(TP)) for isb in kinds)
     out.append(('R13_bytes_mixed_with_text', 'expr', t, whole(t), lambda e: other(e, 'cannot mix bytes'), False))
-    t = cs.pick(["b'é'", "b'a中'", "rb'ß'", "B'''\U0001f600'''", "b'\\x41é'"])
+    ch = cs.pick(['é', '中', 'ß', '\U0001f600', '\x80', '\xff', '\u0100']) if cs.bool() else chr(0x80 + cs.choice(0x2f00))
+    q = cs.pick(["'", '"', "'''", '"""'])
+    t = cs.pick(BP) + q + cs.pick(['', 'a', '\\x41', 'ab']) + ch + cs.pick(['', 'z']) + q
     out.append(('R14_non_ascii_bytes_literal', 'expr', t, whole(t), lambda e: other(e, 'bytes can only contain ASCII'), False))
-    t = cs.pick(["'\\x4'", "'\\x'", "'\\xg1'", "'\\u12'", "'\\u123g'", "'\\U0011000'", "'\\U00110000'", "'\\N{}'", "'\\N{NOT A CHARACTER NAME}'", "'\\N'", "'\\N{DIGIT ONE'", "b'\\x4'",
-                 "f'\\x4{x}'", "'\\U1234567'"])
+    # malformed escapes built from their grammar: too few hex digits, a non-hex digit, a code point above U+10FFFF, \N without
+    # or with an unknown / unterminated name; in text and f-string literals (and \x in bytes)
+    hexd = '0123456789abcdefABCDEF'
+    j = cs.choice(7)
+    if j == 0:
+        esc = '\\x' + ''.join(cs.pick(hexd) for _ in range(cs.choice(2))) + cs.pick(['', 'g', ' ', 'z'])
+    elif j == 1:
+        esc = '\\u' + ''.join(cs.pick(hexd) for _ in range(cs.choice(4))) + cs.pick(['', 'g', ' ', '-'])
+    elif j == 2:
+        esc = '\\U' + ''.join(cs.pick(hexd) for _ in range(cs.choice(8))) + cs.pick(['', 'x', ' '])
+    elif j == 3:
+        esc = '\\U%08x' % (0x110000 + cs.pick([0, 1, 0xffff, 0xeeffff, 0xffeeffff - 0x110000]) if cs.bool() else 0x110000 + cs.choice(0x7fee0000))
+    elif j == 4:
+        esc = cs.pick(['\\N', '\\N{}', '\\N{', '\\N{DIGIT ONE', '\\N{NOT A CHARACTER NAME}', '\\N{digit  one}', '\\N{DIGIT ONE }', '\\N{U+0041}', '\\N DIGIT ONE'])
+    elif j == 5:
+        esc = '\\x' + cs.pick(hexd) + cs.pick(['g', 'G', '_', '.'])
+    else:
+        esc = cs.pick(["\\x4", "\\x", "\\xg1", "\\u12", "\\u123g", "\\U0011000", "\\U00110000", "\\U1234567"])
+    pfx = cs.pick(['', 'u', 'f', 'F', 'b'] if esc.startswith('\\x') else ['', 'u', 'f', 'F', 'U'])
+    q = cs.pick(["'", '"', '"""'])
+    t = pfx + q + cs.pick(['', 'a', 'é']) .replace('é', 'e' if pfx == 'b' else 'é') + esc + q
     out.append(('R15_invalid_escape', 'expr', t, whole(t), lambda e: lex(e, 'UnicodeError', 'Eof', 'StringError') or other(e), False))
     # ---- parameter lists
     p1, p2 = n(), n()
